@@ -116,6 +116,11 @@ def run_molecule(text, sched_kwargs, props=("C04", "C05", "C06", "C07", "C08"), 
                         raise
                     except Exception:
                         pass
+                    if pre_generate_seed % 2 == 0:
+                        try:
+                            mol.gen_reaction_graph()  # ... and has had its reaction graph built
+                        except Exception:
+                            pass
                 try:
                     mol = mol.gen_mirror()
                 except SimAbort:
